@@ -139,7 +139,7 @@ def concretise(prog, ctr):
     return mk
 
 
-def serve(prog, env, extra_status=None):
+def serve(prog, env, extra_status=None, rewrite=False):
     from ombott import Ombott
     ctr = Counter()
     mk = concretise(prog, ctr)
@@ -148,6 +148,9 @@ def serve(prog, env, extra_status=None):
     for i in range(1, env['nb'] + 1):
         def b(i=i):
             hooks.append(['b', i])
+            if i == 1 and rewrite:
+                # before-request hooks run BEFORE routing: a hook may send the request elsewhere (locale prefix, retired URL)
+                app.request['PATH_INFO'] = final_path
             if i == env['failAt']:
                 raise RuntimeError('before hook failed')
         app.add_hook('before_request', b)
@@ -177,7 +180,11 @@ def serve(prog, env, extra_status=None):
         app.route('/h', method=['GET', 'HEAD', 'POST'], callback=handler)
     environ = {}
     setup_testing_defaults(environ)
-    environ.update(REQUEST_METHOD=env['method'], PATH_INFO='/nope' if env['routing'] == '404' else '/h', QUERY_STRING='')
+    final_path = '/nope' if env['routing'] == '404' else '/h'
+    rewrite = bool(rewrite and env['nb'] >= 1)
+    # with `rewrite` the request arrives at a path that routes differently (405 where 404/200 is expected and vice versa)
+    arrival = {'found': '/nope', '404': '/h', '405': '/nope'}[env['routing']] if rewrite else final_path
+    environ.update(REQUEST_METHOD=env['method'], PATH_INFO=arrival, QUERY_STRING='')
     environ['wsgi.errors'] = io.StringIO()
     environ['wsgi.input'] = io.BytesIO(b'')
     if env['method'] == 'POST':
@@ -405,7 +412,7 @@ def run(chk):
     recs = []
     for w in wl:
         env = {k: w['env'][k] for k in ('method', 'fw', 'routing', 'nb', 'failAt', 'na', 'errh')}
-        obs = serve(w['prog'], env)
+        obs = serve(w['prog'], env, rewrite=len(recs) % 3 == 0)
         recs.append({'prog': w['prog'], 'env': env, 'obs': obs})
         chk.count(1, ('tlc', json.dumps(w['prog'], sort_keys=True), json.dumps(env, sort_keys=True)))
     chk.sample({'prog': recs[0]['prog'], 'env': recs[0]['env'], 'obs': {k: v for k, v in recs[0]['obs'].items()}})
@@ -420,7 +427,7 @@ def run(chk):
                'failAt': rng.choice([0, 0, 0] + list(range(1, nb + 1))), 'na': rng.choice([0, 1, 2]),
                'errh': rng.choice(['none', 'none', 'str', 'raise'])}
         prog.setdefault('setst', 0)
-        obs = serve(prog, env)
+        obs = serve(prog, env, rewrite=rng.random() < 0.3)
         recs.append({'prog': prog, 'env': env, 'obs': obs})
         chk.count(1, ('rand', json.dumps(prog, sort_keys=True), json.dumps(env, sort_keys=True)))
     chk.sample({'prog': recs[-1]['prog'], 'env': recs[-1]['env'], 'obs': recs[-1]['obs']})
